@@ -219,6 +219,13 @@ fn versions(o: &mut Out, r: &mut Rng) {
     for t in gen::RCT_TYPES { bodies.push(gen::tx_of(r, &gen::Shape { vary_rings: false, version: 2, nin: 1, ring: 2, nout: if matches!(t, RctType::Full | RctType::Simple) { 0 } else { 1 }, coinbase_first: false, all_coinbase: false, rct: t, nbp: 1, extra_len: 2 })); }
     for v in [0u64, 1, 2, 3, 127, 128, 129, 255, 256, 257, 258, (1 << 16) + 1, (1 << 16) + 2, (1 << 32) + 1, (1 << 32) + 2, 1 << 63, (1 << 63) + 1, u64::MAX] {
         for t in &bodies { let b = with_version(t, v); dec_case(o, "tx", &b, "version"); strict_case(o, "tx", &b, "version");
+            // identifiers under every version: whatever layout the version selects, an ACCEPTED neighbour that differs in one bit behind
+            // the prefix (ring signatures, RingCT parts) has a different id (a hash that dispatches on the version differently from the parser shows here)
+            { let tail = serialize(t).len() - serialize(&t.prefix).len(); let p = b.len() - tail; let id0 = o.op(format!("c05_txid {}", hex(&b)), false);
+              if id0 != "err" && tail > 0 { o.stat("id.version.parsed");
+                  for k in 0..6 { let mut m = b.clone(); let pos = if k == 0 { b.len() - 1 } else { p + r.below(tail as u64) as usize }; m[pos] ^= 1 << r.below(8);
+                      let idm = o.op(format!("c05_txid {}", hex(&m)), false);
+                      if idm != "err" { o.stat("id.version.neighbour.parsed"); o.direct(idm != id0, "C01: two different accepted byte strings have different identifiers (ids commit to the received bytes), under every version", format!("c05_txid {}", trunc(&hex(&m), 600)), idm.clone(), format!("anything but {}", id0)); } } } }
             let mut bs = b.clone(); bs.extend(r.bytes(100)); dec_case(o, "tx", &bs, "version");
             let m = gen::mutate(r, &b); dec_case(o, "tx", &m, "version.mutated"); }
     }
